@@ -8,6 +8,8 @@ package kvql
 
 import (
 	"fmt"
+	"sort"
+	"strconv"
 	"strings"
 	"testing"
 )
@@ -274,4 +276,331 @@ func TestKvcBoundedRewriteText(t *testing.T) {
 		t.Errorf("... %d mismatches in all (%d expressions)", bad, n)
 	}
 	t.Logf("%d expressions x %d pairs", n, len(pairs))
+}
+
+// TestKvcBoundedPutRemove: every `put` of three pairs over four keys and four value forms (a
+// literal, `key`, upper(key), key + 'x'), executed on a store that hands out guarded slices, must
+// leave exactly the sequentially overwritten state (a later duplicate key wins, each value sees its
+// own pair's key), write once however often the plan is polled, and a following `remove` of two of
+// the keys must leave the rest.
+func TestKvcBoundedPutRemove(t *testing.T) {
+	keys := []string{"k1", "k2", "q", "a-longer-key-0123456789"}
+	type form struct {
+		text string
+		eval func(k string) string
+	}
+	forms := []form{
+		{"'v'", func(k string) string { return "v" }},
+		{"key", func(k string) string { return k }},
+		{"upper(key)", func(k string) string { return strings.ToUpper(k) }},
+		{"key + 'x'", func(k string) string { return k + "x" }},
+	}
+	type pair struct {
+		k string
+		f form
+	}
+	var pairs []pair
+	for _, k := range keys {
+		for _, f := range forms {
+			pairs = append(pairs, pair{k, f})
+		}
+	}
+	run := func(s *kvcbStore, q string, polls int) error {
+		plan, err := NewOptimizer(q).BuildPlan(s)
+		if err != nil {
+			return fmt.Errorf("build: %v", err)
+		}
+		ctx := NewExecuteCtx()
+		for i := 0; i < polls; i++ {
+			if _, err := plan.Next(ctx); err != nil {
+				return err
+			}
+			if _, err := plan.Batch(ctx); err != nil {
+				return err
+			}
+		}
+		return nil
+	}
+	n, bad := 0, 0
+	for _, a := range pairs {
+		for _, b := range pairs {
+			for _, c := range pairs {
+				n++
+				s := newKvcbStore()
+				s.Put([]byte("zz"), []byte("old"))
+				want := map[string]string{"zz": "old"}
+				q := "put "
+				for i, p := range []pair{a, b, c} {
+					if i > 0 {
+						q += ", "
+					}
+					q += "('" + p.k + "', " + p.f.text + ")"
+					want[p.k] = p.f.eval(p.k)
+				}
+				err := run(s, q, 2)
+				got := s.snapshot()
+				if err != nil || fmt.Sprint(got) != fmt.Sprint(want) {
+					bad++
+					if bad <= 5 {
+						t.Errorf("%q: store %q, want %q (err %v)", q, got, want, err)
+					}
+					continue
+				}
+				if msg := s.kvcbIntact(want); msg != "" {
+					bad++
+					if bad <= 5 {
+						t.Errorf("%q damaged the stored bytes: %s", q, msg)
+					}
+					continue
+				}
+				if n%64 == 0 {
+					rq := "remove '" + a.k + "', '" + c.k + "'"
+					delete(want, a.k)
+					delete(want, c.k)
+					err := run(s, rq, 2)
+					if got := s.snapshot(); err != nil || fmt.Sprint(got) != fmt.Sprint(want) {
+						bad++
+						if bad <= 5 {
+							t.Errorf("%q after %q: store %q, want %q (err %v)", rq, q, got, want, err)
+						}
+					}
+				}
+			}
+		}
+	}
+	if bad > 5 {
+		t.Errorf("... %d mismatches in all (%d statements)", bad, n)
+	}
+	t.Logf("%d put statements", n)
+}
+
+// TestKvcBoundedLimit: `limit s, n` returns rows s .. s+n-1 of what the statement returns without
+// the limit (C08), for plain, ordered (total orders only) and aggregated SELECT, in both iteration
+// modes and at several batch sizes, and for the pairs chosen by DELETE ... LIMIT.
+func TestKvcBoundedLimit(t *testing.T) {
+	saved := PlanBatchSize
+	defer func() { PlanBatchSize = saved }()
+	stmts := []string{
+		"select * where key ^= 'k'",
+		"select key, int(value) as n where n != 9",
+		"select * where key ^= 'k' order by key desc",
+		"select key, int(value) as n where key ^= 'k' order by n desc, key",
+		"select substr(key, 0, 2) as g, count(1) as c where key ^= 'k' group by g",
+		"select substr(key, 0, 2) as g, sum(int(value)) as t where key ^= 'k' group by g order by g desc",
+	}
+	offsets := []int{0, 1, 2, 31, 32, 33, 69, 70, 71}
+	counts := []int{0, 1, 2, 31, 32, 33, 100}
+	n, bad := 0, 0
+	for _, size := range []int{0, 1, 5, 33, 70} {
+		s := kvcbNumStore(size)
+		for _, bs := range []int{1, 2, 32} {
+			PlanBatchSize = bs
+			for _, q := range stmts {
+				all, err := kvcbDrainRows(t, q, s)
+				if err != nil {
+					t.Fatalf("%q: %v", q, err)
+				}
+				for _, off := range offsets {
+					for _, cnt := range counts {
+						if bs != 32 && (off > 33 || cnt > 33) && size > 33 {
+							continue // (the small batch sizes take the smaller windows only)
+						}
+						lo, hi := off, off+cnt
+						if lo > len(all) {
+							lo = len(all)
+						}
+						if hi > len(all) {
+							hi = len(all)
+						}
+						want := fmt.Sprint(all[lo:hi])
+						lq := fmt.Sprintf("%s limit %d, %d", q, off, cnt)
+						n++
+						rows, rerr := kvcbDrainRows(t, lq, s)
+						brows, berr := kvcbDrainBatch(t, lq, s)
+						if rerr != nil || berr != nil || fmt.Sprint(rows) != want || fmt.Sprint(brows) != want {
+							bad++
+							if bad <= 5 {
+								t.Errorf("store of %d, batch size %d, %q:\n want  %s\n row   %v %v\n batch %v %v", size, bs, lq, want, rows, rerr, brows, berr)
+							}
+						}
+						if off == 0 && cnt > 0 {
+							sq := fmt.Sprintf("%s limit %d", q, cnt)
+							if rows, err := kvcbDrainRows(t, sq, s); err != nil || fmt.Sprint(rows) != want {
+								bad++
+								if bad <= 5 {
+									t.Errorf("%q: want %s, got %v %v", sq, want, rows, err)
+								}
+							}
+						}
+					}
+				}
+			}
+		}
+	}
+	// DELETE ... LIMIT deletes exactly the pairs the SELECT with the same limit returns
+	for _, size := range []int{5, 33, 70} {
+		for _, off := range []int{0, 1, 5, 32, 33} {
+			for _, cnt := range []int{1, 2, 32, 60} {
+				for _, where := range []string{"key ^= 'k'", "key ^= 'k' & int(value) != 9", "key in ('k00', 'k02', 'k03', 'k40')"} {
+					PlanBatchSize = 32
+					s := kvcbNumStore(size)
+					sel, err := kvcbDrainRows(t, fmt.Sprintf("select key where %s limit %d, %d", where, off, cnt), s)
+					if err != nil {
+						t.Fatal(err)
+					}
+					before := s.snapshot()
+					plan, err := NewOptimizer(fmt.Sprintf("delete where %s limit %d, %d", where, off, cnt)).BuildPlan(s)
+					if err != nil {
+						t.Fatal(err)
+					}
+					if _, err := plan.Next(NewExecuteCtx()); err != nil {
+						t.Fatal(err)
+					}
+					n++
+					after := s.snapshot()
+					gone := map[string]bool{}
+					for k := range before {
+						if _, ok := after[k]; !ok {
+							gone[k] = true
+						}
+					}
+					ok := len(gone) == len(sel) && len(after)+len(gone) == len(before)
+					for _, r := range sel {
+						k := strings.TrimSuffix(strings.TrimPrefix(r, `["s:`), `"]`)
+						ok = ok && gone[k]
+					}
+					if !ok {
+						bad++
+						if bad <= 5 {
+							t.Errorf("delete where %s limit %d, %d over %d pairs removed %v, the select returns %v", where, off, cnt, size, gone, sel)
+						}
+					}
+				}
+			}
+		}
+	}
+	if bad > 5 {
+		t.Errorf("... %d mismatches in all (%d statements)", bad, n)
+	}
+	t.Logf("%d statements", n)
+}
+
+// TestKvcBoundedOrder: ORDER BY returns a sorted permutation of the unordered result (C07): the
+// multiset of rows is unchanged and adjacent rows are in the documented order of the sort fields
+// (numbers numerically, text byte-wise, DESC reversed, later fields break ties).
+func TestKvcBoundedOrder(t *testing.T) {
+	saved := PlanBatchSize
+	defer func() { PlanBatchSize = saved }()
+	s := newKvcbStore()
+	for i := 0; i < 45; i++ {
+		s.Put([]byte(fmt.Sprintf("k%02d", (i*7)%45)), []byte(fmt.Sprintf("%d", (i*i)%11-3)))
+	}
+	type ord struct {
+		col  int
+		num  bool
+		desc bool
+	}
+	cases := []struct {
+		q    string
+		ords []ord
+	}{
+		{"select key, value where key ^= 'k' order by value", []ord{{1, false, false}}},
+		{"select key, value where key ^= 'k' order by value desc, key", []ord{{1, false, true}, {0, false, false}}},
+		{"select key, int(value) as n where key ^= 'k' order by n", []ord{{1, true, false}}},
+		{"select key, int(value) as n where key ^= 'k' order by n desc, key desc", []ord{{1, true, true}, {0, false, true}}},
+		{"select key, int(value) as n, value where n != 2 order by value, n desc, key", []ord{{2, false, false}, {1, true, true}, {0, false, false}}},
+		{"select key, float(value) / 2.0 as f where key ^= 'k' order by f, key desc", []ord{{1, true, false}, {0, false, true}}},
+		{"select substr(key, 0, 2) as g, count(1) as c, sum(int(value)) as t where key ^= 'k' group by g order by c desc, g", []ord{{1, true, true}, {0, false, false}}},
+		{"select key, int(value) as n where key ^= 'b' order by n", []ord{{1, true, false}}},
+		{"select key, int(value) as n where key ^= 'b' order by n desc", []ord{{1, true, true}}},
+		{"select substr(key, 0, 2) as g, int(value) as n, key where key ^= 'b' order by g, g, n desc", []ord{{0, false, false}, {0, false, false}, {1, true, true}}},
+	}
+	cell := func(row string, col int) string {
+		// rows are rendered as ["kind:text" "kind:text" ...]; the texts here contain no blanks
+		parts := strings.Split(strings.TrimSuffix(strings.TrimPrefix(row, "["), "]"), " ")
+		if col >= len(parts) {
+			return "?:" + row
+		}
+		return strings.Trim(parts[col], `"`)
+	}
+	cmp := func(a, b string, o ord) int {
+		x, y := cell(a, o.col), cell(b, o.col)
+		x, y = x[strings.Index(x, ":")+1:], y[strings.Index(y, ":")+1:]
+		r := 0
+		if o.num {
+			ix, ex := strconv.ParseInt(x, 10, 64)
+			iy, ey := strconv.ParseInt(y, 10, 64)
+			if ex == nil && ey == nil {
+				if ix < iy {
+					r = -1
+				} else if ix > iy {
+					r = 1
+				}
+			} else {
+				var fx, fy float64
+				fmt.Sscan(x, &fx)
+				fmt.Sscan(y, &fy)
+				if fx < fy {
+					r = -1
+				} else if fx > fy {
+					r = 1
+				}
+			}
+		} else {
+			r = strings.Compare(x, y)
+		}
+		if o.desc {
+			r = -r
+		}
+		return r
+	}
+	big := newKvcbStore()
+	for i, v := range []string{"9007199254740993", "9007199254740992", "-9223372036854775808", "9223372036854775807", "0", "-1", "9007199254740994", "-9223372036854775807", "1758900000000000003", "1758900000000000002"} {
+		big.Put([]byte(fmt.Sprintf("b%02d", (i*3)%10)), []byte(v))
+	}
+	for _, bs := range []int{1, 3, 32} {
+		PlanBatchSize = bs
+		for ci, c := range cases {
+			s := s
+			if ci >= len(cases)-3 {
+				s = big
+			}
+			plain := c.q[:strings.Index(c.q, " order by ")]
+			base, err := kvcbDrainRows(t, plain, s)
+			if err != nil {
+				t.Fatalf("%q: %v", plain, err)
+			}
+			for mode := 0; mode < 2; mode++ {
+				var rows []string
+				if mode == 0 {
+					rows, err = kvcbDrainRows(t, c.q, s)
+				} else {
+					rows, err = kvcbDrainBatch(t, c.q, s)
+				}
+				if err != nil {
+					t.Errorf("%q: %v", c.q, err)
+					continue
+				}
+				a, b := append([]string{}, base...), append([]string{}, rows...)
+				sort.Strings(a)
+				sort.Strings(b)
+				if fmt.Sprint(a) != fmt.Sprint(b) {
+					t.Errorf("batch size %d mode %d %q: not a permutation of the unordered result (%d vs %d rows)", bs, mode, c.q, len(rows), len(base))
+					continue
+				}
+				for i := 0; i+1 < len(rows); i++ {
+					r := 0
+					for _, o := range c.ords {
+						if r = cmp(rows[i], rows[i+1], o); r != 0 {
+							break
+						}
+					}
+					if r > 0 {
+						t.Errorf("batch size %d mode %d %q: rows %d and %d are out of order: %s, %s", bs, mode, c.q, i, i+1, rows[i], rows[i+1])
+						break
+					}
+				}
+			}
+		}
+	}
 }
